@@ -108,7 +108,7 @@ class EnvScenario(StateScenario):
                              p_dynamic=0.0, filename_fs=False, virtual=False, p_sub=rng.choice([0.3, 0.5]))
 
     def weights(self, rng):
-        return {"set": 4, "load_tree": 4, "loads": 2, "reset": 1, "restart": 2}
+        return {"set": 4, "load_tree": 4, "loads": 2, "reset": 1, "restart": 2, "cmdline": 1.5}
 
     def header(self, seed, avoid):
         h = super().header(seed, avoid)
@@ -326,6 +326,19 @@ class EnvScenario(StateScenario):
         op = super().gen_load_tree(st, rng, cfg, tgts, cfgpaths, owners)
         return op
 
+    def gen_cmdline(self, st, rng, cfg, tgts, cfgpaths, owners):
+        """A command-line override of one bound scalar field: an explicit assignment like any other."""
+        cands = [t for t in tgts if t.path in st.bound and t.node["kind"] in ("string", "int", "float", "port", "ipv4addr", "url", "loglevel", "hostname", "ipv4net")]
+        if not cands:
+            return None
+        t = rng.choice(cands)
+        for _ in range(10):
+            v = values.gen_value(rng, t.node, "valid", st.ctx)
+            sv = v if isinstance(v, str) else repr(v) if isinstance(v, (int, float)) and not isinstance(v, bool) else None
+            if sv and not sv.startswith("-") and isinstance(model.norm(t.node, sv, st.ctx), OK):
+                return {"op": "cmdline", "path": t.path, "sv": sv}
+        return None
+
     def apply(self, st, op, rec):
         if op["op"] == "restart":
             self.new_session(st, rec, op.get("env"))
@@ -421,6 +434,33 @@ class EnvScenario(StateScenario):
                             rec.fail("C14/precedence", "C14/load-overrides-field-with-variable-set",
                                      "field %s (variable %s set) was changed by a later load from %r to %r" % (p, st.bound[p][0], was, canon_at(cfg, p)))
             rec.probe("load-with-bound-key" if any(p in st.bound for p in touched) else "load")
+        elif k == "cmdline":
+            from cincoconfig.support import cmdline_args_override, generate_argparse_parser
+            path, sv = op["path"], op["sv"]
+            node = schema.node_at(st.sd, path)
+            opt = "--" + path.replace(".", "-").replace("_", "-").lower()
+
+            def frame():
+                import contextlib
+                import io
+                parser = generate_argparse_parser(st.B.root, prog="sim", add_help=False)
+                with contextlib.redirect_stderr(io.StringIO()):
+                    ns = parser.parse_args([opt, sv])
+                cmdline_args_override(cfg, ns)
+            _, err = self._call(frame)
+            rec.log("cmdline", path, sv, type(err).__name__ if err else "ok")
+            if err is not None or node is None:
+                rec.probe("cmdline-not-applied")          # colliding option names and the like: no claim
+                return
+            st.assigned.add(path)
+            st.either.pop(path, None)
+            st.open.discard(path)
+            rec.check()
+            r = model.norm(node, sv, st.ctx)
+            if isinstance(r, OK) and not ops.matches(r.v, safe_resolve(cfg, path)):
+                rec.fail("C14/precedence", "C14/assignment-does-not-override-variable/cmdline/%s" % node["kind"],
+                         "the command-line override %s %r for %s (bound to %s) left %r" % (opt, sv, path, st.bound[path][0], canon(safe_resolve(cfg, path))))
+            rec.probe("command-line-over-variable")
         elif k == "reset":
             path = op["path"]
             opath, key = ops.split_last(path)
